@@ -241,6 +241,50 @@ func (n *normCtx) sroa(fd *ast.FuncDecl) {
 		if !ok || q.failed {
 			return nil
 		}
+		// a parameter or local of the function may hide a name the type is
+		// written with (`appendMode appendMode`): the type then gets a
+		// file-level alias
+		shadowed := false
+		if scope := pk.Types.Scope().Innermost(fd.Body.Lbrace + 1); scope != nil {
+			var visit func(x ast.Node) bool
+			visit = func(x ast.Node) bool {
+				switch x := x.(type) {
+				case *ast.Field:
+					if x.Type != nil {
+						ast.Inspect(x.Type, visit)
+					}
+					return false
+				case *ast.SelectorExpr:
+					return false
+				case *ast.Ident:
+					hidden := false
+					ast.Inspect(fd, func(y ast.Node) bool {
+						if id, ok := y.(*ast.Ident); ok && id.Name == x.Name {
+							if obj := pk.TypesInfo.Defs[id]; obj != nil {
+								if _, isType := obj.(*types.TypeName); !isType {
+									hidden = true
+								}
+							}
+						}
+						return !hidden
+					})
+					if hidden {
+						shadowed = true
+					}
+				}
+				return true
+			}
+			ast.Inspect(e, visit)
+		}
+		if shadowed {
+			if _, isTP := t.(*types.TypeParam); isTP {
+				return nil
+			}
+			n.in.nfresh++
+			alias := fmt.Sprintf("inlT%d_", n.in.nfresh)
+			n.file.Decls = append(n.file.Decls, &ast.GenDecl{Tok: token.TYPE, Specs: []ast.Spec{&ast.TypeSpec{Name: ast.NewIdent(alias), Assign: 1, Type: e}}})
+			return ast.NewIdent(alias)
+		}
 		return e
 	}
 	repl := map[ast.Stmt][]ast.Stmt{}
